@@ -241,9 +241,15 @@ namespace
 		auto col_size = l->at(0).data<d_array>()->size();
 
 		// Check that array is n x k
-		for (size_t i = 1; i < row_size; i++) {
-			if (l->at(i).data<d_array>()->size() != col_size) {
+		for (size_t i = 0; i < row_size; i++) {
+			if (!l->at(i).is<t_array>() || l->at(i).data<d_array>()->size() != col_size) {
 				return std::make_shared<d_array>();
+			}
+			// ... of numbers
+			for (auto& element : *l->at(i).data<d_array>()) {
+				if (!element.is<t_scalar>()) {
+					return std::make_shared<d_array>();
+				}
 			}
 		}
 
